@@ -74,6 +74,15 @@ func Conforming(t *rapid.T, cfg Cfg) M {
 	for i := 0; i < ns; i++ {
 		b.comps["schemas"][fmt.Sprintf("S%d", i)] = b.schema(cfg.SchemaDepth, false)
 	}
+	if cfg.Unusual && b.chance(4, "selfcomposed") {
+		// a schema that names itself under a composition keyword: legal for the document validator,
+		// and applying it to a value must end (with any verdict)
+		kw := rapid.SampledFrom([]string{"oneOf", "anyOf", "allOf"}).Draw(b.t, "selfkw")
+		b.comps["schemas"]["Loop"] = M{kw: []any{ref("schemas", "Loop"), M{"type": "integer"}}}
+		if b.chance(3, "selfnot") {
+			b.comps["schemas"]["Loop"] = M{"not": ref("schemas", "Loop")}
+		}
+	}
 	if cfg.Unusual && b.chance(2, "recursive") {
 		b.comps["schemas"]["Rec"] = M{"type": "object", "properties": M{"next": ref("schemas", "Rec"), "v": M{"type": "integer"}, "list": M{"type": "array", "items": ref("schemas", "Rec")}}}
 	}
